@@ -1,4 +1,4 @@
-import CV.Proofs.Bits
+import CV.Proofs.BitsExport
 import CV.Model.BitsExpGolomb
 /-!
 # Exp-Golomb: the codebook on plain bit lists
@@ -223,22 +223,26 @@ theorem foldl_stepN {N : Nat} (hN : 1 ≤ N) : ∀ (ds : List Bool) (a : Nat), a
 
 /-! ## the decoder on plain bit lists -/
 
+theorem listSrc_next_nil : listSrc.next [] = (none, []) := rfl
+theorem listSrc_next_cons (b : Bool) (r : List Bool) : listSrc.next (b :: r) = (some b, r) := rfl
+
 theorem countZeros_true : ∀ (z f n : Nat) (r : List Bool), z < f → n + z < 2^32 →
     countZeros listSrc f (List.replicate z false ++ true :: r) n = .ok (r, some (n + z))
-  | 0, f + 1, n, r, _, _ => by simp [countZeros, listSrc]
+  | 0, f + 1, n, r, _, _ => by simp [countZeros, listSrc_next_cons]
   | z + 1, f + 1, n, r, hf, hn => by
     have ih := countZeros_true z f (n+1) r (by omega) (by omega)
     have h1 : n + 1 < 2^32 := by omega
-    simp only [List.replicate_succ, List.cons_append, countZeros, listSrc, cadd, h1, if_true, ih]
-    congr 3; omega
+    have h2 : n + 1 + z = n + (z + 1) := by omega
+    simp only [List.replicate_succ, List.cons_append, countZeros, listSrc_next_cons, cadd, h1,
+      if_true, ih, h2]
 
 theorem countZeros_end : ∀ (z f n : Nat), z < f → n + z < 2^32 →
     countZeros listSrc f (List.replicate z false) n = .ok ([], none)
-  | 0, f + 1, n, _, _ => by simp [countZeros, listSrc]
+  | 0, f + 1, n, _, _ => by simp [countZeros, listSrc_next_nil]
   | z + 1, f + 1, n, hf, hn => by
     have ih := countZeros_end z f (n+1) (by omega) (by omega)
     have h1 : n + 1 < 2^32 := by omega
-    simp only [List.replicate_succ, countZeros, listSrc, cadd, h1, if_true, ih]
+    simp only [List.replicate_succ, countZeros, listSrc_next_cons, cadd, h1, if_true, ih]
 
 theorem countZeros_inv : ∀ (f : Nat) (l : List Bool) (n : Nat) (s : List Bool) (k : Nat),
     countZeros listSrc f l n = .ok (s, some k) →
@@ -366,42 +370,49 @@ theorem decode_sound {N : Nat} (hN : ValidN N) {fuel : Nat} {l rest : List Bool}
           have hds := lowBits_valMSB (s.take z)
           rw [htl] at hds
           by_cases hbad : z = N ∧ (s.take z).foldl (stepN N) 1 ≠ 0
-          · simp [hbad] at h
-          · simp only [hbad, if_false, Except.ok.injEq, Prod.mk.injEq] at h
+          · rw [if_pos hbad] at h
+            simp at h
+          · rw [if_neg hbad] at h
+            simp only [Except.ok.injEq, Prod.mk.injEq] at h
             obtain ⟨hrest, hv⟩ := h
             have hs : s = s.take z ++ rest := by rw [← hrest, List.take_append_drop]
+            have hl' : l = List.replicate z false ++ true :: (s.take z ++ rest) := by
+              rw [hl]; congr 2
+            clear hl hs hrest hcz
+            generalize s.take z = ds at *
             by_cases hzN : z = N
             · -- the wrap: N zeros, a one, N zeros
-              have hz0 : (s.take z).foldl (stepN N) 1 = 0 := by
-                by_cases h0 : (s.take z).foldl (stepN N) 1 = 0
+              have hz0 : ds.foldl (stepN N) 1 = 0 := by
+                by_cases h0 : ds.foldl (stepN N) 1 = 0
                 · exact h0
                 · exact absurd ⟨hzN, h0⟩ hbad
-              rw [hfold, hzN, Nat.add_mod_left, Nat.mod_eq_of_lt (by rw [← hzN]; exact hval)] at hz0
+              have hv0 : valMSB ds = 0 := by
+                rw [hfold, hzN, Nat.add_mod_left, Nat.mod_eq_of_lt (by rw [← hzN]; exact hval)] at hz0
+                exact hz0
               rw [hz0, wsub_one hN1, Nat.zero_add, Nat.mod_eq_of_lt (by omega)] at hv
               have hvv : v = 2^N - 1 := by omega
               refine ⟨by omega, ?_⟩
-              rw [hvv, code_max, hl, hs, ← hds, hz0, hzN, lowBits_zero_word]
+              rw [hvv, code_max, hl', ← hds, hv0, hzN, lowBits_zero_word]
               simp
             · have hzlt : z < N := by omega
-              have hsum : 2^z + valMSB (s.take z) < 2^N := by
+              have hsum : 2^z + valMSB ds < 2^N := by
                 have : 2^(z+1) ≤ 2^N := Nat.pow_le_pow_right (by omega) hzlt
                 rw [Nat.pow_succ] at this; omega
               rw [hfold, Nat.mod_eq_of_lt hsum, wsub_one hN1] at hv
-              have hv1 : v + 1 = 2^z + valMSB (s.take z) := by
-                have : 2^z + valMSB (s.take z) + 2^N - 1 = (2^z + valMSB (s.take z) - 1) + 2^N := by
-                  have := Nat.two_pow_pos z; omega
+              have hzpos := Nat.two_pow_pos z
+              have hv1 : v + 1 = 2^z + valMSB ds := by
+                have : 2^z + valMSB ds + 2^N - 1 = (2^z + valMSB ds - 1) + 2^N := by omega
                 rw [this, Nat.add_mod_right, Nat.mod_eq_of_lt (by omega)] at hv
-                have := Nat.two_pow_pos z; omega
+                omega
               have hlog : Nat.log2 (v+1) = z := by
                 apply log2_eq_of_bounds
                 · omega
                 · rw [Nat.pow_succ]; omega
               refine ⟨by omega, ?_⟩
-              rw [code_eq, hlog, hv1, hl, hs]
-              have hlb : lowBits z (2^z + valMSB (s.take z)) = lowBits z (valMSB (s.take z)) := by
-                have := lowBits_top (b := true) (n := z) (r := valMSB (s.take z))
+              have hlb : lowBits z (2^z + valMSB ds) = lowBits z (valMSB ds) := by
+                have := lowBits_top (b := true) (n := z) (r := valMSB ds)
                 simpa using this
-              rw [hlb, hds]
+              rw [code_eq, hlog, hv1, hl', hlb, hds]
               simp
         · simp [hlen] at h
 
@@ -427,14 +438,14 @@ theorem decode_total {N : Nat} {fuel : Nat} {l : List Bool} (hf : l.length < fue
     rw [hl, countZeros_true z fuel 0 r (by omega) (by omega)]
     simp only [Nat.zero_add]
     by_cases h1 : z > N
-    · exact ⟨_, _, by simp [h1], by simp⟩
-    · simp only [h1, if_false, readBits_list]
+    · rw [if_pos h1]; exact ⟨_, _, rfl, by simp⟩
+    · rw [if_neg h1, readBits_list]
       by_cases h2 : z ≤ r.length
-      · simp only [h2, if_true]
+      · rw [if_pos h2]
         by_cases h3 : z = N ∧ (r.take z).foldl (stepN N) 1 ≠ 0
-        · exact ⟨_, _, by simp [h3], by simp⟩
-        · exact ⟨_, _, by simp [h3], by simp⟩
-      · exact ⟨_, _, by simp [h2], by simp⟩
+        · simp only []; rw [if_pos h3]; exact ⟨_, _, rfl, by simp⟩
+        · simp only []; rw [if_neg h3]; exact ⟨_, _, rfl, by simp⟩
+      · rw [if_neg h2]; exact ⟨_, _, rfl, by simp⟩
   · have hz : z = l.length := by rw [hl]; simp
     rw [hl, countZeros_end z fuel 0 (by omega) (by omega)]
     exact ⟨_, _, rfl, by simp⟩
